@@ -16,7 +16,7 @@
    oracle c19_ok; the same histories are replayed on the real code by the suite. *)
 From Coq Require Import NArith ZArith List Bool String.
 From F8 Require Import Sess.Bytes Sess.Msg Sess.Persist Sess.Session Sess.Wire
-  C19.Run19 C19.Spec_C19 C19.Witness19 C19.DeliverProofs C19.WitnessProofs.
+  Sess.SendLemmas C19.Run19 C19.Spec_C19 C19.Witness19 C19.DeliverProofs C19.ResendWire C19.WitnessProofs.
 Import ListNotations.
 Local Open Scope string_scope.
 Local Open Scope list_scope.
@@ -62,6 +62,21 @@ Theorem c19_high_partial :
    exists text, process sc decode fl now raw s = catch19 sc now q (Some (m_type m)) (inr (Exc text true), s, [])).
 Proof. exact high_partial. Qed.
 Print Assumptions c19_high_partial.
+
+(* The same clause for state `continuous` in the oracle's own terms: with a schema that knows the header fields the
+   session fills in and the ResendRequest (wf_schema, knows_rr), CompIDs without SOH (wf_sess), an open socket
+   and no batch pending, the events of process start with ONE message on the wire, a ResendRequest (35=2) whose
+   BeginSeqNo is the expected number, and contain no DELIVER. *)
+Theorem c19_high_continuous_wire :
+  forall sc decode fl now raw s m q,
+  decode raw = DecOk m -> raw_seq raw = Some q -> checked m = true -> s_active s = true ->
+  is_established (s_state s) = true -> compid_pass s m = true -> s_next_recv s < q ->
+  s_state s = st_continuous ->
+  wf_schema sc = true -> knows_rr sc -> wf_sess s = true -> s_closed s = false -> s_batch s = [] ->
+  forall r s' e, process sc decode fl now raw s = (r, s', e) ->
+  has_deliver e = false /\ exists w rest, e = EOut w :: rest /\ resend_from (s_next_recv s) [EOut w] = true.
+Proof. exact high_continuous_wire. Qed.
+Print Assumptions c19_high_continuous_wire.
 
 (* A lower number without PossDupFlag, a duplicate whose OrigSendingTime is after its SendingTime, or wrong
    CompIDs under enforcement (established session, checked type): process takes the force_logoff branch on
@@ -178,7 +193,7 @@ Print Assumptions c19_no34_witness.
 (* Non-vacuity: ordinary traffic meets the hypotheses of c19_delivery_partial and IS delivered (number 2 at
    expected 2; duplicate 2 with PossDupFlag and an earlier OrigSendingTime at expected 3); a gap is answered
    with ResendRequest(5..); a too-low Logon in state logon_received is answered with a Logout; the oracle
-   accepts these histories. *)
+   accepts these histories; the side conditions of c19_high_continuous_wire hold for the witness schema/session. *)
 Theorem c19_delivery_nonvacuous :
   (decoded_seq (order_msg "2" []) = Some 2 /\ raw_seq (order_msg "2" []) = Some 2 /\ s_next_recv s_cont = 2 /\
    delivered (p_evs (proc (order_msg "2" []) s_cont)) = true /\
@@ -190,6 +205,7 @@ Theorem c19_delivery_nonvacuous :
    has_deliver (nth_events 5 (run0 ops_good)) = false /\
    resend_from 5 (nth_events 5 (run0 ops_good)) = true /\
    c19_ok sc0 ops_logon_low (run0 ops_logon_low) = true /\
-   has_out [53] (last_events (run0 ops_logon_low)) = true).
-Proof. exact (conj wdeliver wgood). Qed.
+   has_out [53] (last_events (run0 ops_logon_low)) = true) /\
+  (wf_schema sc0 = true /\ knows_rr sc0 /\ wf_sess s_cont = true /\ s_closed s_cont = false /\ s_batch s_cont = []).
+Proof. exact (conj wdeliver (conj wgood sc0_wire_ok)). Qed.
 Print Assumptions c19_delivery_nonvacuous.
